@@ -15,7 +15,7 @@ META = {
             "order_independent_of_hash, listing_independent_of_map_order (Permutation l1 l2 -> sort l1 = sort l2 for the lexicographic order on byte strings, proved total/antisymmetric/transitive), user_hash_seedless, "
             "every_map_range_sorted (the complete table of `for ... := range <map>` statements of the anchored files; re-derived from the Go source with go/ast on every run and compared, so a new unsorted exposure or a removed sort is flagged with file:line). "
             "Tie and search on the real implementation: (a) operation histories on the real starlark.Dict, struct / module listings and hash() are evaluated against the Coq machine under two different environments and against the specification machine; "
-            "(b) generated dict/set/struct/json/dir()/load/time-heavy programs (keys >= 12 bytes, one third ending in an error raised inside nested calls) are executed in k fresh processes (new hash seed each), three times in one process and on concurrent goroutines; "
+            "plus 400 (quick) / 4000 (thorough) big dict / set trials (20-400 long-string keys, several table doublings and overflow chains) against a naive oracle in Go; (b) generated dict/set/struct/json/dir()/load/time-heavy programs, including dicts and sets of hundreds of long-string keys (keys >= 12 bytes, one third ending in an error raised inside nested calls) are executed in k fresh processes (new hash seed each), three times in one process and on concurrent goroutines; "
             "the canonical transcript (prints, every global serialised with its iteration orders, String(), raw AttrNames(), error message + backtrace, ExecutionSteps()) must be identical; "
             "(c) the SAME compiled Program is initialised on many goroutines at once (error programs, and a stress with a freshly reloaded 24 000-line chain program per trial so that lazily decoded tables are built under contention); in the thorough tier the concurrent runs are repeated under Go's race detector.",
     "note": "Trusted: Coq kernel + vm_compute; the harness (program generator, canonical serialiser, process/goroutine drivers), the Go AST walker and its syntactic recognition of map-typed expressions. "
@@ -143,7 +143,13 @@ Print stale.
             len(rows), ", ".join("%s:%s=%s" % (r["file"].split("/")[-1], r["func"], r["class"]) for r in rows), missing, stale))
 
     # ---- 2. operation histories on the real Dict / listings / hash() against model and specification
-    hist = ctx.jsonl([hx, "ops", "-seed", str(ctx.seed), "-n", "80" if quick else "1500"])
+    recs = ctx.jsonl([hx, "ops", "-seed", str(ctx.seed), "-n", "80" if quick else "1500", "-big", "400" if quick else "4000"])
+    hist = [d for d in recs if d["kind"] == "history"]
+    bigsum = [d for d in recs if d["kind"] == "bigsummary"]
+    for d in recs:
+        if d["kind"] == "bigmismatch":
+            ctx.finding("big:%s" % d["what"], "dict / set of hundreds of long-string keys against the naive oracle (insertion-ordered slice + Go map): %s" % d["detail"][:500],
+                        {"mode": "big", "what": d["what"], "detail": d["detail"], "cmd": "c03 ops -seed %d -n 0 -big 4000" % ctx.seed})
     cases = ["([%s], [%s])" % ("; ".join(render_op(o) for o in h["ops"]), "; ".join(render_ev(e) for e in h["obs"])) for h in hist]
     nops = sum(len(h["ops"]) for h in hist)
     ctx.log("evaluating %d histories (%d operations) in Coq" % (len(cases), nops))
@@ -175,7 +181,7 @@ Definition firsts := Eval vm_compute in map (fun c : list op * list event => fir
         ctx.broken("correspondence:C03.Model", "model and implementation differ on %d histories where the specification is met, e.g. %s" % (len(only_model), json.dumps(hist[only_model[0]])[:600]))
 
     # ---- 3. generated programs: processes x repetitions x goroutines
-    n, k, g = (600, 4, 4) if quick else (12000, 8, 8)
+    n, k, g = (250, 4, 4) if quick else (6000, 8, 8)
     res = ctx.jsonl([hx, "run", "-seed", str(ctx.seed), "-n", str(n), "-k", str(k), "-g", str(g)], timeout=3000)
     summ = [d for d in res if d["kind"] == "summary"][0]
     for d in res:
@@ -209,11 +215,11 @@ Definition firsts := Eval vm_compute in map (fun c : list op * list event => fir
     cov = {
         "evaluations": summ["executions"] + nops,
         "distinct_nontrivial": summ["programs"] + len(set(cases)),
-        "rule": "programs: seeded generator, 2-5 blocks out of {dictlong, setops, structs, dirs, json, hashes, strfmt, closures, timefixed, loadmod} (every block kind is the first block of one program), one third end in one of 12 error endings; "
+        "rule": "programs: seeded generator, 2-5 blocks out of {dictlong, setops, structs, dirs, json, hashes, strfmt, closures, timefixed, loadmod, bigdict, bigset} (bigdict: dicts of 60-480 long-string keys grown one insertion at a time with membership checked after every insertion, deletions, re-insertions; bigset: subset / superset / equality / algebra queries on sets of 40-400 long strings; both over-weighted) (every block kind is the first block of one program), one third end in one of 12 error endings; "
                 "each program runs in k fresh processes, 3 times in one process and on g goroutines twice; histories: seeded operation sequences over keys drawn from a pool of mostly >= 12-byte strings; distinct = programs + distinct histories",
         "samples": [summ["sample_program"][:600], summ["sample_transcript"][:600], hist[0]["ops"][:6] if hist else None],
         "distribution": summ["distribution"], "programs_ending_in_error": summ["with_error"],
-        "processes": k, "goroutines": g, "histories": len(hist), "history_operations": nops,
+        "processes": k, "goroutines": g, "histories": len(hist), "big_dict_set_trials": bigsum[0] if bigsum else None, "history_operations": nops,
         "model_mismatches": len(bad_model), "spec_mismatches": len(bad_spec), "map_ranges": len(rows), "race_detector": race_note,
     }
     return ctx.finish(LEVEL, cov, assumptions=[
